@@ -38,6 +38,11 @@ def arrays_for(case, dtype=np.float64):
             idx = np.indices(s) if len(s) else np.zeros((0,))
             par = sum(idx[k] for k in range(len(s)) if k != d) % 2 if len(s) else 0
             out.append(np.asarray(a + 900.0 * par, dtype=dtype))
+        elif p == "with_inf":
+            a = np.asarray(values.generic(s, salt=7 * i), dtype=dtype).copy(); f = a.reshape(-1)
+            if f.size: f[0] = -np.inf
+            if f.size > 1: f[-1] = np.inf
+            out.append(a)          # a masked score (-inf) and an overflowed one (+inf) among ordinary values
         elif p == "offset_neg":
             out.append(np.asarray(values.generic(s, salt=7 * i) - 1e3, dtype=dtype))       # every value around -1000
         elif p == "masked_last":
@@ -488,6 +493,13 @@ def cases(tier, what="forward"):
                     if s == k and ok:
                         a2 = dict(args); del a2["stride"]
                         add(o, [(N, C, H, W)], a2); add(o, [(N, C, H, W)], a2, form="layer")
+    # --- infinite entries (additive -inf masks, overflowed scores): the element-wise definitions still apply (relu(-inf) = 0, ...)
+    if fw:
+        for sh in ((3,), (2, 3)):
+            for o in ("relu", "tanh", "sigmoid", "selu"):
+                add(o, [sh], pats=["with_inf"]); add(o, [sh], pats=["with_inf"], form="layer")
+            for sl in (0.01, 0.2):
+                add("leaky_relu", [sh], {"slope": sl}, pats=["with_inf"])
     # --- max pooling windows that contain no real element at all (padding up to half the DILATED kernel allows it): -inf, as the
     #     reference gives; and inputs whose every value is very negative (padding must still never win)
     if fw:
